@@ -91,6 +91,8 @@ impl DataChunkBuilder {
         let capacity = self.capacity;
         match size {
             0 => None,
+            // a chunk without columns still has `size` rows
+            _ if self.array_builders.is_empty() => Some(DataChunk::no_column(size)),
             _ => Some(
                 self.array_builders
                     .iter_mut()
